@@ -75,6 +75,15 @@ def check (j : Json) : Except String Verdict := do
   | "singleton" =>
     let mode ← jStr j "mode"
     let res ← jStr obs "result"
+    if mode = "set-overlapping" then
+      -- model: `Bootstrap.setRun` over the callers in any lock order installs one manager throughout
+      let used := ((Bootstrap.setRun (none : Option Nat) (List.range 16)).eraseDups).length
+      let want := s!"managers-used={used} final-used-by-all=true"
+      let ok := (res.splitOn want).length > 1
+      let linedUp := (res.splitOn "parked=16").length > 1
+      return { nontrivial := linedUp
+               mismatch := if !ok then some s!"singleton {mode}: model {want}, impl {res}" else none
+               specfail := if !ok then some s!"C20.init_first_wins (overlapping first initialisations): 16 callers of SetXDSResourceManager lined up at the holder's lock; expected one manager to win for every caller and in the end ({want}), got {res}" else none }
     let want := match mode with
       | "init-missing" =>
         -- three calls of Init on an environment that is incomplete each time (model: `Bootstrap.initRun`)
